@@ -231,7 +231,7 @@ func (r *recordIter) readMemTableMetaRecord(ops []*comm.CallOption) {
 	// The column scans below record the first row as the first value and the last row as the
 	// last one. The rows of a descending query arrive newest first: the two are exchanged.
 	descending := r.record.RowNums() > 1 && r.record.Time(0) > r.record.Time(r.record.RowNums()-1)
-	var exchanged []int
+	var done []int // columns whose statistics are complete
 
 	for _, call := range ops {
 		if r.record == nil {
@@ -239,6 +239,11 @@ func (r *recordIter) readMemTableMetaRecord(ops []*comm.CallOption) {
 		}
 		idx := r.record.Schema.FieldIndex(call.Ref.Val)
 		if idx < 0 {
+			continue
+		}
+		if slices.Contains(done, idx) {
+			// several calls on one column: one scan fills every statistic of the column, a
+			// second scan would undo the exchange below
 			continue
 		}
 
@@ -254,8 +259,11 @@ func (r *recordIter) readMemTableMetaRecord(ops []*comm.CallOption) {
 		default:
 			return
 		}
-		if descending && r.record != nil && !slices.Contains(exchanged, idx) {
-			exchanged = append(exchanged, idx)
+		if r.record == nil {
+			return
+		}
+		done = append(done, idx)
+		if descending {
 			first, firstTime := r.record.ColMeta[idx].First()
 			last, lastTime := r.record.ColMeta[idx].Last()
 			r.record.ColMeta[idx].SetFirst(last, lastTime)
